@@ -168,6 +168,7 @@ class Normal(ast.NodeTransformer):
         self.owner = owner
         self.texts = texts
         self.displays = displays       # chain -> the dict display a constant table is bound to
+        self.nonnull: T.Optional[T.Callable[[str], bool]] = None      # expression text -> it denotes a value that is never None (a declared enum member)
 
     def visit_Subscript(self, n: ast.Subscript) -> ast.AST:
         self.generic_visit(n)
@@ -180,6 +181,26 @@ class Normal(ast.NodeTransformer):
             if sorted(map(repr, keys)) == ['False', 'True'] and all(isinstance(k, bool) for k in keys):
                 # TABLE[flag] over a table keyed by the two booleans: the conditional expression it stands for
                 return ast.IfExp(test=n.slice, body=copy.deepcopy(d.values[keys.index(True)]), orelse=copy.deepcopy(d.values[keys.index(False)]))
+        return n
+
+    def visit_IfExp(self, n: ast.IfExp) -> ast.AST:
+        """`a if <x> is [not] None else b` where x is the literal None or a value known not to be None (after copy propagation of a
+        helper's result): the branch that is taken."""
+        self.generic_visit(n)
+        t = n.test
+        neg = False
+        while isinstance(t, ast.UnaryOp) and isinstance(t.op, ast.Not):
+            t, neg = t.operand, not neg
+        if isinstance(t, ast.Compare) and len(t.ops) == 1 and isinstance(t.ops[0], (ast.Is, ast.IsNot)) \
+                and isinstance(t.comparators[0], ast.Constant) and t.comparators[0].value is None:
+            is_none: T.Optional[bool] = None
+            if isinstance(t.left, ast.Constant):
+                is_none = t.left.value is None
+            elif self.nonnull is not None and isinstance(t.left, (ast.Attribute, ast.Name)) and self.nonnull(norm(t.left)):
+                is_none = False
+            if is_none is not None:
+                holds = (is_none == isinstance(t.ops[0], ast.Is)) != neg
+                return n.body if holds else n.orelse
         return n
 
     def visit_Call(self, n: ast.Call) -> ast.AST:
@@ -309,6 +330,13 @@ def _alts(e: ast.AST, val: bool) -> T.List[T.List[T.Tuple[ast.AST, bool]]]:
         return _alts(e.operand, not val)
     if isinstance(e, ast.Constant):
         return [[]] if bool(e.value) == val else []
+    if isinstance(e, ast.Call) and isinstance(e.func, ast.Name) and e.func.id == 'bool' and len(e.args) == 1 and not e.keywords \
+            and not isinstance(e.args[0], ast.Starred):
+        return _alts(e.args[0], val)        # bool(x) in a tested position is the truth value of x
+    if isinstance(e, ast.Call) and isinstance(e.func, ast.Name) and e.func.id == 'isinstance' and len(e.args) == 2 and not e.keywords \
+            and isinstance(e.args[1], ast.Tuple) and e.args[1].elts and not any(isinstance(x, ast.Starred) for x in e.args[1].elts):
+        # isinstance(x, (A, B)) is isinstance(x, A) or isinstance(x, B)
+        return _alts(ast.BoolOp(op=ast.Or(), values=[ast.Call(func=e.func, args=[e.args[0], k], keywords=[]) for k in e.args[1].elts]), val)
     if isinstance(e, ast.BoolOp):
         is_and = isinstance(e.op, ast.And)
         if is_and == val:      # every operand takes `val`
@@ -349,6 +377,14 @@ def build(fn: T.Any, body: T.List[ast.stmt], name: str, seed: T.Optional[T.Dict[
 
     def helper_call(v: ast.AST, want_gen: bool, depth: int) -> T.Optional[T.Tuple[T.Any, T.Dict[str, ast.AST]]]:
         """(callee, {parameter: substituted operand}) when `v` is `self.h(...)` of a resolvable same-class helper."""
+        if helpers is not None and depth < 2 and isinstance(v, ast.Attribute) and isinstance(v.ctx, ast.Load) and isinstance(v.value, ast.Name) \
+                and v.value.id == 'self' and not want_gen:
+            # `self.p` of a read-only @property: a call without operands
+            prop = helpers(v.attr)
+            if prop is not None and isinstance(prop, ast.FunctionDef) and [attr_chain(d) for d in prop.decorator_list] == ['property'] \
+                    and not any(isinstance(n, (ast.Yield, ast.YieldFrom)) for n in ast.walk(prop)):
+                return prop, {}
+            return None
         if helpers is None or depth >= 2 or not isinstance(v, ast.Call):
             return None
         module_level = isinstance(v.func, ast.Name)
@@ -404,6 +440,42 @@ def build(fn: T.Any, body: T.List[ast.stmt], name: str, seed: T.Optional[T.Dict[
             inner = _InlineTrivial(self.depth + 1, self.fields).visit(_Sub(dict(self.fields), {}).visit(copy.deepcopy(body[0].value)))
             return _Sub(dict(bound), {}).visit(inner)
 
+        def visit_Attribute(self, n: ast.Attribute) -> ast.AST:
+            """`self.p` where p is a read-only `@property` of the same class whose body is one `return <expr>` (a named predicate /
+            derived value): the expression, over the field values as of now."""
+            self.generic_visit(n)
+            if helpers is None or self.depth >= 3 or not isinstance(n.ctx, ast.Load) or not (isinstance(n.value, ast.Name) and n.value.id == 'self'):
+                return n
+            callee = helpers(n.attr)
+            if callee is None or isinstance(callee, ast.AsyncFunctionDef) or [attr_chain(d) for d in callee.decorator_list] != ['property']:
+                return n
+            body = [b for b in callee.body if not (isinstance(b, ast.Expr) and isinstance(b.value, ast.Constant))]
+            if len(body) != 1 or not isinstance(body[0], ast.Return) or body[0].value is None or any(isinstance(x, (ast.Yield, ast.YieldFrom, ast.Await, ast.Lambda, ast.NamedExpr))
+                                                                                                    for x in ast.walk(body[0].value)):
+                return n
+            return _InlineTrivial(self.depth + 1, self.fields).visit(_Sub(dict(self.fields), {}).visit(copy.deepcopy(body[0].value)))
+
+    cond_no = [0]
+
+    def _single_return(callee: T.Any) -> bool:
+        body = [b for b in callee.body if not (isinstance(b, ast.Expr) and isinstance(b.value, ast.Constant))]
+        return len(body) == 1 and isinstance(body[0], ast.Return)
+
+    def _nested_helper_call(e: ast.AST, depth: int, allow_top: bool) -> T.Optional[ast.AST]:
+        """The first `self.h(..)` / `self.p` inside `e` that resolves to a helper with a body of its own (more than one `return <expr>`,
+        which is inlined as an expression)."""
+        stack = [e]
+        while stack:
+            x = stack.pop(0)
+            if isinstance(x, (ast.Lambda, ast.GeneratorExp, ast.ListComp, ast.SetComp, ast.DictComp)):
+                continue
+            if (x is not e or allow_top) and isinstance(x, (ast.Call, ast.Attribute)):
+                hc = helper_call(x, False, depth)
+                if hc is not None and not _single_return(hc[0]):
+                    return x
+            stack.extend(ast.iter_child_nodes(x))
+        return None
+
     def _mk(fr: _Frame, atom: T.Optional[Atom], val: bool, eff: T.Optional[Eff], raw: ast.AST) -> Item:
         return Item(atom, val, eff, raw, 1 if fr.shadow else 0)
 
@@ -432,6 +504,17 @@ def build(fn: T.Any, body: T.List[ast.stmt], name: str, seed: T.Optional[T.Dict[
                     if isinstance(c, ast.Call) and isinstance(c.func, ast.Name) and c.func.id == 'int' and len(c.args) == 1:
                         st.ints.append((c, sub(c.args[0])))
             if ev.kind == 'cond':
+                c0 = _nested_helper_call(node, fr.depth, True)
+                if c0 is not None:
+                    # `if self.h(..):` / `if self.p:` / `if (v := self.h(..)) is not None:` on a helper with a body of its own: read as
+                    # `t = self.h(..); if t:` (the callee's paths are spliced, the test is on what each path returns)
+                    cond_no[0] += 1
+                    tmp = f'_cond_{cond_no[0]}_'
+                    synth0 = ast.copy_location(ast.Assign(targets=[ast.Name(id=tmp, ctx=ast.Store())], value=c0), node)
+                    test0 = ast.fix_missing_locations(ast.copy_location(_replace(node, c0, ast.Name(id=tmp, ctx=ast.Load())), node))
+                    events = events[:i - 1] + [Event('stmt', synth0, None), Event('cond', test0, ev.val)] + events[i:]
+                    i -= 1
+                    continue
                 e = sub(node)
                 bind_walrus(node)
                 alts = _alts(e, bool(ev.val))
@@ -472,6 +555,11 @@ def build(fn: T.Any, body: T.List[ast.stmt], name: str, seed: T.Optional[T.Dict[
                                 ok = False
                                 break
                             continue
+                        if a.kind == 'is' and a.args[1] == 'None' and normal is not None and normal.nonnull is not None and normal.nonnull(a.args[0]):
+                            if v:           # a member of a declared enum is not None
+                                ok = False
+                                break
+                            continue
                         if a.kind == 'is' and a.args[1] == 'None' and a.args[0].startswith('int(') and a.args[0].endswith(')'):
                             if v:           # the result of int(...) is never None
                                 ok = False
@@ -496,6 +584,28 @@ def build(fn: T.Any, body: T.List[ast.stmt], name: str, seed: T.Optional[T.Dict[
                 s_ = node
                 hv = getattr(s_, 'value', None)
                 hgen = isinstance(hv, ast.YieldFrom)
+                if isinstance(s_, (ast.Assign, ast.AnnAssign, ast.AugAssign)) and hv is not None and not hgen:
+                    c0 = _nested_helper_call(hv, fr.depth, False)
+                    if c0 is not None:
+                        # `x = self.h(..) or x`: the helper call is named first (`t = self.h(..); x = t or x`), so that its paths are spliced
+                        cond_no[0] += 1
+                        tmp = f'_cond_{cond_no[0]}_'
+                        synth0 = ast.copy_location(ast.Assign(targets=[ast.Name(id=tmp, ctx=ast.Store())], value=c0), s_)
+                        s2 = copy.copy(s_)
+                        s2.value = _replace(hv, c0, ast.Name(id=tmp, ctx=ast.Load()))
+                        events = events[:i - 1] + [Event('stmt', synth0, None), Event('stmt', ast.fix_missing_locations(s2), None)] + events[i:]
+                        i -= 1
+                        continue
+                    if isinstance(hv, ast.BoolOp) and isinstance(hv.values[0], ast.Name) and hv.values[0].id.startswith('_cond_') and not isinstance(s_, ast.AugAssign):
+                        # `x = t or rest` on a spliced helper result t: `x = t` where t is true, `x = rest` where it is not (and dually for `and`)
+                        is_or = isinstance(hv.op, ast.Or)
+                        rest_v: ast.AST = hv.values[1] if len(hv.values) == 2 else ast.BoolOp(op=hv.op, values=list(hv.values[1:]))
+                        for tv in (True, False):
+                            s2 = copy.copy(s_)
+                            s2.value = hv.values[0] if tv == is_or else rest_v
+                            evs = [Event('cond', hv.values[0], tv), Event('stmt', ast.fix_missing_locations(s2), None)] + events[i:]
+                            proc(evs, 0, st.copy(), _Frame(dict(fr.locals), fr.params, fr.depth, fr.shadow), done)
+                        return
                 if isinstance(s_, (ast.Assign, ast.AnnAssign)) and (isinstance(s_, ast.AnnAssign) or len(s_.targets) == 1) and hv is not None \
                         and helper_call(hv.value if hgen else hv, hgen, fr.depth) is not None:
                     # x = self.h(...) / x = yield from self.gen(...): splice the callee's paths, x receives what the path returns
